@@ -74,8 +74,21 @@ def sv(s):
     return z3.StringVal(s)
 
 
+_SIMP = {}
+_SIMP_KEEP = []
+
+
 def simp(t):
-    return z3.simplify(t)
+    """z3.simplify, memoised on term identity (terms are kept alive so ids are not reused)."""
+    k = t.get_id()
+    r = _SIMP.get(k)
+    if r is None:
+        r = z3.simplify(t)
+        _SIMP[k] = r
+        _SIMP[r.get_id()] = r
+        _SIMP_KEEP.append(t)
+        _SIMP_KEEP.append(r)
+    return r
 
 
 def is_true(t):
